@@ -303,6 +303,183 @@ Proof.
 Qed.
 End Jouguet.
 
+(** * C''. The Jouguet velocity is the MINIMUM of v+ over T-, and how the code finds it *)
+Section JouguetMinimum.
+Variable e : env.
+Notation Tn := (Tnucl e).
+Notation eH := (eHighT e Tn).
+
+(** if vpDerivNum is <= 0 before tm and >= 0 after it (on [a,b]), then v+^2(tm) is the minimum
+    of v+^2 on [a,b], and so is the returned vJ = sqrt(v+^2(tm)) *)
+Lemma vJ_minimum a b tm :
+  a <= tm <= b ->
+  (forall c, a <= c <= b -> derivable_pt_lim (pLowT e) c (dpLowT e c) /\
+                            derivable_pt_lim (eLowT e) c (deLowT e c) /\
+                            eH - eLowT e c <> 0 /\ eH + pLowT e c <> 0) ->
+  (forall c, a <= c < tm -> vpDerivNum e c <= 0) ->
+  (forall c, tm < c <= b -> 0 <= vpDerivNum e c) ->
+  forall t, a <= t <= b -> vpsq e tm <= vpsq e t /\ vJ_of_tm e tm <= vJ_of_tm e t.
+Proof.
+  intros Hm Hd Hneg Hpos t Ht.
+  assert (M : vpsq e tm <= vpsq e t).
+  { apply (local_min_of_sign_change (vpsq e)
+             (fun c => vpDerivNum e c / ((eH - eLowT e c) * (eH + pLowT e c)) ^ 2) a b tm Hm).
+    - intros c Hc. destruct (Hd c Hc) as [D1 [D2 [N1 N2]]].
+      apply vpDerivNum_is_derivative; assumption.
+    - intros c Hc. destruct (Hd c) as [_ [_ [N1 N2]]]; [lra|].
+      assert (0 < ((eH - eLowT e c) * (eH + pLowT e c)) ^ 2).
+      { assert ((eH - eLowT e c) * (eH + pLowT e c) <> 0)
+          by (apply Rmult_integral_contrapositive_currified; assumption).
+        pose proof (pow2_ge_0 ((eH - eLowT e c) * (eH + pLowT e c))). nra. }
+      pose proof (Hneg c Hc). unfold Rdiv.
+      assert (0 < / ((eH - eLowT e c) * (eH + pLowT e c)) ^ 2) by (apply Rinv_0_lt_compat; assumption).
+      nra.
+    - intros c Hc. destruct (Hd c) as [_ [_ [N1 N2]]]; [lra|].
+      assert (0 < ((eH - eLowT e c) * (eH + pLowT e c)) ^ 2).
+      { assert ((eH - eLowT e c) * (eH + pLowT e c) <> 0)
+          by (apply Rmult_integral_contrapositive_currified; assumption).
+        pose proof (pow2_ge_0 ((eH - eLowT e c) * (eH + pLowT e c))). nra. }
+      pose proof (Hpos c Hc). unfold Rdiv.
+      assert (0 < / ((eH - eLowT e c) * (eH + pLowT e c)) ^ 2) by (apply Rinv_0_lt_compat; assumption).
+      nra.
+    - exact Ht. }
+  split; [exact M|]. rewrite !vJ_of_tm_is_sqrt_vpsq. apply sqrt_le_1_alt, M.
+Qed.
+
+(** the bracket search (generated: jouguet_init, jouguet_loop_test, jouguet_loop_step,
+    jouguet_use_brentq, jouguet_brentq_bracket), run with any amount of fuel on any function f *)
+Variable f : R -> R.
+Hypothesis HTn : 0 < Tn.
+
+Fixpoint jsearch (n : nat) (p : R * R) : R * R :=
+  match n with
+  | O => p
+  | S n' => if jouguet_loop_test e (f (fst p)) (f (snd p)) (fst p) (snd p)
+            then jsearch n' (jouguet_loop_step e (fst p) (snd p)) else p
+  end.
+
+Lemma step_fst a b : fst (jouguet_loop_step e a b) = b.
+Proof. reflexivity. Qed.
+Lemma step_snd a b : b < TMaxHydro e -> b < snd (jouguet_loop_step e a b) <= TMaxHydro e.
+Proof.
+  intro H. unfold jouguet_loop_step. cbn [snd]. split.
+  - apply Rmin_glb_lt; lra.
+  - apply Rmin_r.
+Qed.
+Lemma loop_test_true b1 b2 a b : jouguet_loop_test e b1 b2 a b = true -> 0 < b1 * b2 /\ b < TMaxHydro e.
+Proof.
+  unfold jouguet_loop_test.
+  destruct (Rlt_dec 0 (b1 * b2)); destruct (Rlt_dec b (TMaxHydro e)); cbn; intro H;
+    try discriminate; auto.
+Qed.
+
+(** consecutive brackets are adjacent ([.., b] then [b, b'] with b < b' <= TMaxHydro), and as
+    long as the search goes on f has the strict sign of f(Tn) at the left end *)
+Lemma jsearch_invariant n : forall p,
+  (fst p = Tn \/ 0 < f Tn * f (fst p)) ->
+  (fst (jsearch n p) = Tn \/ 0 < f Tn * f (fst (jsearch n p))).
+Proof.
+  induction n as [|n IH]; intros p Hp; cbn [jsearch]; [exact Hp|].
+  destruct (jouguet_loop_test e (f (fst p)) (f (snd p)) (fst p) (snd p)) eqn:T; [|exact Hp].
+  apply IH. rewrite step_fst. right.
+  apply loop_test_true in T. destruct T as [T _].
+  destruct Hp as [E|P]; [rewrite E in T; exact T|].
+  apply sign_chain_pos with (f (fst p)); assumption.
+Qed.
+
+Lemma jouguet_init_fst : fst (jouguet_init e) = Tn.
+Proof. reflexivity. Qed.
+
+(** when brentq is chosen, the bracket it is given, [Tn, Tmax], has a sign change, and the
+    sign change sits in the last interval examined *)
+Lemma brentq_bracket_sign_change n :
+  let q := jsearch n (jouguet_init e) in
+  jouguet_use_brentq e (f (fst q)) (f (snd q)) (fst q) (snd q) = true ->
+  jouguet_brentq_bracket e (fst q) (snd q) = (Tn, snd q) /\
+  f Tn * f (snd q) <= 0 /\ f (fst q) * f (snd q) <= 0.
+Proof.
+  cbv zeta. set (q := jsearch n (jouguet_init e)).
+  unfold jouguet_use_brentq. destruct (Rle_dec (f (fst q) * f (snd q)) 0) as [L|]; [|discriminate].
+  intros _. split; [reflexivity|]. split; [|exact L].
+  pose proof (jsearch_invariant n (jouguet_init e) (or_introl jouguet_init_fst)) as I.
+  fold q in I. destruct I as [E|P].
+  - rewrite E in L. exact L.
+  - apply sign_chain with (f (fst q)); assumption.
+Qed.
+End JouguetMinimum.
+
+(** * A'. Temperatures handed to the matching equations, speeds in the unit interval *)
+Section Ranges.
+Variable e : env.
+
+(** the solver's unknowns are mapped into the open hydro window (TMinHydro, TMaxHydro) *)
+Lemma inverse_mapping_range x : TMinHydro e < TMaxHydro e ->
+  let r := inverseMappingT e x in
+  TMinHydro e < fst r < TMaxHydro e /\ TMinHydro e < snd r < TMaxHydro e.
+Proof.
+  intro H. unfold inverseMappingT. destruct x as [a b]. cbn [fst snd].
+  pose proof PI_RGT_0 as P.
+  assert (B : forall y, - (1 / 2) < atan y / PI < 1 / 2).
+  { intro y. destruct (atan_bound y) as [L U].
+    split; [apply Rmult_lt_reg_r with PI|apply Rmult_lt_reg_r with PI]; try exact P;
+      unfold Rdiv; rewrite Rmult_assoc, Rinv_l by lra; lra. }
+  assert (E : forall y, atan y * (TMaxHydro e - TMinHydro e) / PI =
+                        (atan y / PI) * (TMaxHydro e - TMinHydro e)) by (intro; field; lra).
+  rewrite !E. pose proof (B a). pose proof (B b). split; split; nra.
+Qed.
+
+Lemma deflag_speeds vw vp Tp Tm : 0 < vw < 1 -> 0 < csqLowT e Tm ->
+  let vm := snd (fst (fst (deflag_ret_fixed e vw vp Tp Tm))) in 0 < vm < 1.
+Proof.
+  intros Hv Hc. rewrite deflag_ret_fixed_shape. cbn [fst snd]. cbv zeta.
+  assert (M : 0 < Rmin (vw ^ 2) (csqLowT e Tm)) by (apply Rmin_glb_lt; nra).
+  rewrite Rmax_left by lra. split; [apply sqrt_lt_R0, M|].
+  pose proof (vm_rule_bounds vw (csqLowT e Tm)) as B. cbv zeta in B.
+  rewrite Rmax_left in B by lra. destruct B as [[_ B] _]; lra.
+Qed.
+
+Lemma deflag_speeds_entropy vw Tp Tm : 0 < vw < 1 -> 0 < csqLowT e Tm -> 0 < Tm -> Tp <> 0 ->
+  0 <= Tm ^ 2 - Tp ^ 2 * (1 - Rmin (vw ^ 2) (csqLowT e Tm)) ->
+  let r := deflag_ret_entropy e vw Tp Tm in
+  0 < snd (fst (fst r)) < 1 /\ 0 <= fst (fst (fst r)) < 1.
+Proof.
+  intros Hv Hc HT HTp Hrad.
+  pose proof (deflag_ret_entropy_shape e vw Tp Tm) as S. cbv zeta in S. cbv zeta. rewrite S.
+  cbn [fst snd].
+  pose proof (deflag_speeds vw 0 Tp Tm Hv Hc) as V. rewrite deflag_ret_fixed_shape in V.
+  cbn [fst snd] in V. cbv zeta in V.
+  pose proof (vm_rule_bounds vw (csqLowT e Tm)) as B. cbv zeta in B.
+  destruct B as [_ [B _]]; [lra|lra|].
+  set (vm := sqrt (Rmax (Rmin (vw ^ 2) (csqLowT e Tm)) 0)) in *.
+  split; [exact V|]. rewrite B.
+  set (rad := Tm ^ 2 - Tp ^ 2 * (1 - Rmin (vw ^ 2) (csqLowT e Tm))) in *.
+  split.
+  - apply Rmult_le_pos; [apply sqrt_pos|]. apply Rlt_le, Rinv_0_lt_compat, HT.
+  - apply Rmult_lt_reg_r with Tm; [exact HT|].
+    unfold Rdiv. rewrite Rmult_assoc, Rinv_l, Rmult_1_r, Rmult_1_l by lra.
+    assert (rad < Tm ^ 2).
+    { unfold rad. rewrite <- B.
+      assert (0 < Tp ^ 2) by (assert (0 <= Tp ^ 2) by apply pow2_ge_0;
+                              assert (Tp ^ 2 <> 0) by (apply pow_nonzero; exact HTp); lra).
+      assert (0 < 1 - vm ^ 2) by nra. nra. }
+    apply Rlt_le_trans with (sqrt (Tm ^ 2)); [apply sqrt_lt_1_alt; lra|].
+    rewrite sqrt_sq_nonneg by lra. lra.
+Qed.
+
+(** deflagration (vw below the sound speed behind the wall): any v+ taken from the bracket the
+    code searches, [vBracketLow, vpmax] with vpmax <= vw (also after vpmax is re-solved inside
+    [vpmax, vw]), is <= v- = vw *)
+Lemma vpmax_le_vw vw : findMatching_vpmax e vw <= vw.
+Proof. unfold findMatching_vpmax. apply Rmin_l. Qed.
+
+Lemma deflag_vp_le_vm vw vp Tp Tm : 0 <= vw -> vw ^ 2 <= csqLowT e Tm -> vp <= vw ->
+  vp <= snd (fst (fst (deflag_ret_fixed e vw vp Tp Tm))).
+Proof.
+  intros H0 Hc Hv. rewrite deflag_ret_fixed_shape. cbn [fst snd].
+  rewrite vm_rule_deflag by assumption. exact Hv.
+Qed.
+End Ranges.
+
 (** * D. Template model *)
 Section Tmpl.
 Variable e : t_env.
@@ -401,10 +578,11 @@ End Tmpl.
 Section OnThermodynamics.
 Variable te : Thermo.env.
 Variable s : Thermo.st.
-Variables Tn vJ0 : R.
+Variables Tn vJ0 THydroMax THydroMin : R.
 
 Definition env_of : env :=
-  {| Tnucl := Tn; HydroAdmGen.vJ := vJ0;
+  {| Tnucl := Tn; HydroAdmGen.vJ := vJ0; HydroAdmGen.TMaxLowT := Thermo.TMaxLowT s;
+     TMaxHydro := THydroMax; TMinHydro := THydroMin;
      pHighT := Thermo.pHighT te s; pLowT := Thermo.pLowT te s;
      eHighT := Thermo.eHighT te s; eLowT := Thermo.eLowT te s;
      wHighT := Thermo.wHighT te s; wLowT := Thermo.wLowT te s;
@@ -611,8 +789,8 @@ Proof. intros. apply jouguet_detonation_is_sonic; assumption. Qed.
 Print Assumptions detonation_at_vJ_is_Chapman_Jouguet.
 
 (** on the generated Thermodynamics class the identity hypotheses are theorems *)
-Theorem jouguet_point_is_sonic_on_Thermodynamics : forall te s Tn vJ0 tm,
-  let e := env_of te s Tn vJ0 in
+Theorem jouguet_point_is_sonic_on_Thermodynamics : forall te s Tn vJ0 THmax THmin tm,
+  let e := env_of te s Tn vJ0 THmax THmin in
   Thermo.TMinLowT s <= tm <= Thermo.TMaxLowT s ->
   deLowT e tm <> 0 -> eHighT e Tn + pHighT e Tn <> 0 -> pHighT e Tn + eLowT e tm <> 0 ->
   eHighT e Tn - eLowT e tm <> 0 -> eHighT e Tn + pLowT e tm <> 0 ->
@@ -621,8 +799,8 @@ Theorem jouguet_point_is_sonic_on_Thermodynamics : forall te s Tn vJ0 tm,
 Proof. intros. apply jouguet_iff_sonic_thermo; assumption. Qed.
 Print Assumptions jouguet_point_is_sonic_on_Thermodynamics.
 
-Theorem detonation_at_vJ_is_Chapman_Jouguet_on_Thermodynamics : forall te s Tn vJ0 tm,
-  let e := env_of te s Tn vJ0 in
+Theorem detonation_at_vJ_is_Chapman_Jouguet_on_Thermodynamics : forall te s Tn vJ0 THmax THmin tm,
+  let e := env_of te s Tn vJ0 THmax THmin in
   Thermo.TMinLowT s <= tm <= Thermo.TMaxLowT s ->
   deLowT e tm <> 0 -> eHighT e Tn + pHighT e Tn <> 0 -> pHighT e Tn + eLowT e tm <> 0 ->
   eHighT e Tn - eLowT e tm <> 0 -> eHighT e Tn + pLowT e tm <> 0 ->
@@ -632,8 +810,8 @@ Theorem detonation_at_vJ_is_Chapman_Jouguet_on_Thermodynamics : forall te s Tn v
 Proof. intros. apply jouguet_detonation_is_sonic_thermo; assumption. Qed.
 Print Assumptions detonation_at_vJ_is_Chapman_Jouguet_on_Thermodynamics.
 
-Theorem first_root_detonation_is_weak_on_Thermodynamics : forall te s Tn vJ0 vw Tm,
-  let e := env_of te s Tn vJ0 in
+Theorem first_root_detonation_is_weak_on_Thermodynamics : forall te s Tn vJ0 THmax THmin vw Tm,
+  let e := env_of te s Tn vJ0 THmax THmin in
   Thermo.TMinLowT s <= Tm <= Thermo.TMaxLowT s ->
   derivable_pt_lim (pLowT e) Tm (dpLowT e Tm) -> derivable_pt_lim (eLowT e) Tm (deLowT e Tm) ->
   Tn < Tm -> (forall t, Tn <= t < Tm -> 0 <= deton_residual e vw t) ->
@@ -674,6 +852,62 @@ Theorem getVp_solves_alpha : forall e vm al br,
   t_alpha_plus e (t_getVp e vm al br) vm = al.
 Proof. intros. apply template_getVp_solves_alpha; assumption. Qed.
 Print Assumptions getVp_solves_alpha.
+
+(** vJ is the minimum of v+(T-), the bracket search, temperature window, unit interval *)
+Theorem vJ_is_minimum_of_vp : forall e a b tm,
+  a <= tm <= b ->
+  (forall c, a <= c <= b -> derivable_pt_lim (pLowT e) c (dpLowT e c) /\
+                            derivable_pt_lim (eLowT e) c (deLowT e c) /\
+                            eHighT e (Tnucl e) - eLowT e c <> 0 /\ eHighT e (Tnucl e) + pLowT e c <> 0) ->
+  (forall c, a <= c < tm -> vpDerivNum e c <= 0) ->
+  (forall c, tm < c <= b -> 0 <= vpDerivNum e c) ->
+  forall t, a <= t <= b -> vpsq e tm <= vpsq e t /\ vJ_of_tm e tm <= vJ_of_tm e t.
+Proof. intros. eapply vJ_minimum; eassumption. Qed.
+Print Assumptions vJ_is_minimum_of_vp.
+
+Theorem jouguet_brackets_are_adjacent : forall e a b,
+  0 < Tnucl e -> fst (jouguet_init e) = Tnucl e /\
+  fst (jouguet_loop_step e a b) = b /\
+  (b < TMaxHydro e -> b < snd (jouguet_loop_step e a b) <= TMaxHydro e) /\
+  (forall b1 b2, jouguet_loop_test e b1 b2 a b = true -> 0 < b1 * b2 /\ b < TMaxHydro e).
+Proof.
+  intros e a b H. split; [reflexivity|]. split; [apply step_fst|]. split; [apply step_snd; exact H|].
+  intros b1 b2 T. eapply loop_test_true. exact T.
+Qed.
+Print Assumptions jouguet_brackets_are_adjacent.
+
+Theorem jouguet_brentq_bracket_has_sign_change : forall e (f : R -> R) n,
+  let q := jsearch e f n (jouguet_init e) in
+  jouguet_use_brentq e (f (fst q)) (f (snd q)) (fst q) (snd q) = true ->
+  jouguet_brentq_bracket e (fst q) (snd q) = (Tnucl e, snd q) /\
+  f (Tnucl e) * f (snd q) <= 0 /\ f (fst q) * f (snd q) <= 0.
+Proof. intros e f n. apply brentq_bracket_sign_change. Qed.
+Print Assumptions jouguet_brentq_bracket_has_sign_change.
+
+Theorem mapped_temperatures_in_hydro_window : forall e x, TMinHydro e < TMaxHydro e ->
+  let r := inverseMappingT e x in
+  TMinHydro e < fst r < TMaxHydro e /\ TMinHydro e < snd r < TMaxHydro e.
+Proof. intros. apply inverse_mapping_range. assumption. Qed.
+Print Assumptions mapped_temperatures_in_hydro_window.
+
+Theorem deflagration_speeds_in_unit_interval : forall e vw vp Tp Tm,
+  0 < vw < 1 -> 0 < csqLowT e Tm ->
+  (0 < snd (fst (fst (deflag_ret_fixed e vw vp Tp Tm))) < 1) /\
+  (0 < Tm -> Tp <> 0 -> 0 <= Tm ^ 2 - Tp ^ 2 * (1 - Rmin (vw ^ 2) (csqLowT e Tm)) ->
+   0 < snd (fst (fst (deflag_ret_entropy e vw Tp Tm))) < 1 /\
+   0 <= fst (fst (fst (deflag_ret_entropy e vw Tp Tm))) < 1).
+Proof.
+  intros e vw vp Tp Tm H1 H2. split; [apply deflag_speeds; assumption|].
+  intros. apply deflag_speeds_entropy; assumption.
+Qed.
+Print Assumptions deflagration_speeds_in_unit_interval.
+
+Theorem deflagration_vp_le_vm : forall e vw vp Tp Tm,
+  0 <= vw -> vw ^ 2 <= csqLowT e Tm ->
+  findMatching_vpmax e vw <= vw /\
+  (vp <= vw -> vp <= snd (fst (fst (deflag_ret_fixed e vw vp Tp Tm)))).
+Proof. intros. split; [apply vpmax_le_vw|intro; apply deflag_vp_le_vm; assumption]. Qed.
+Print Assumptions deflagration_vp_le_vm.
 
 (** which family findMatching computes, and the template's v- rule *)
 Theorem findMatching_dispatch : forall e vw,
